@@ -487,3 +487,5 @@ def run(ctx, led):
     run_rule(led, "R7", "reasons built under reification carry the literal (eager: extended; lazy: "
              "ReifiedLazy, whose evaluation appends it) — TABLE", r7, ctx)
     run_rule(led, "R8", "post and implied_by of one constraint build the same sub-constraints", r8, ctx)
+    from . import predrules
+    run_rule(led, "R9", "Predicate negation is the exact complement (shared with C02-U9)", predrules.negation_exact, ctx)
